@@ -175,8 +175,36 @@ def gen_case(rng):
         r0 = rng.choice(rows)
         jr = r0["nick"] if r0["nick"] in SAFE_NICKS else r0["table"]
     extras = {k: True for k in EXTRA_KEYS if rng.random() < 0.4}
-    return {"version": version, "rows": rows, "hist": hist, "jr": jr, "n": rng.randint(1, 4),
+    case = {"version": version, "rows": rows, "hist": hist, "jr": jr, "n": rng.randint(1, 4),
             "zero": rng.random() < 0.5, "extras": extras}
+    # aliasing: the SAME Python object in several fields of a row and in several rows
+    if rng.random() < 0.4:
+        spec = gen_alias_spec(rng)
+        if spec["via"] == "var":
+            case["var"] = rng.choice(SHARED_VALUES)
+        targets = rows if rng.random() < 0.5 else [rng.choice(rows)]
+        for row in targets:
+            for fn in ALIAS_FIELDS[: rng.randint(2, 3)]:
+                row["fields"].append([fn, dict(spec)])
+    return case
+
+
+ALIAS_FIELDS = ["al1", "al2", "al3"]
+SHARED_VALUES = [
+    {"t": "date", "v": "2024-02-29"}, {"t": "datetime", "v": "2024-01-01T10:00:00+05:00"},
+    {"t": "datetime", "v": "2024-01-01T10:00:00"}, {"t": "decimal", "v": "1.10"},
+    {"t": "int", "v": str(2 ** 70)}, {"t": "str", "v": "12"}, {"t": "str", "v": "multi\nline\n"},
+    {"t": "float", "v": "1e22"},
+]
+
+
+def gen_alias_spec(rng):
+    kind = rng.choice(["shared", "shared", "shared", "today", "datefn", "var"])
+    if kind == "shared":
+        return dict(rng.choice(SHARED_VALUES), via="shared")
+    if kind == "datefn":
+        return {"via": "datefn", "v": rng.choice(DATES)}
+    return {"via": kind}
 
 
 # ----------------------------------------------------------------------------- rendering
@@ -188,6 +216,14 @@ def render_fielddef(spec):
         return "{reference: %s}" % spec["to"]
     if via == "fakedec":
         return "{fake.pydecimal: {left_digits: 2, right_digits: 2}}"
+    if via == "today":
+        return "${{ today }}"
+    if via == "var":
+        return "${{ shared_v }}"
+    if via == "datefn":
+        return "{date: %s}" % yq(spec["v"])
+    if via == "shared":
+        return "{C05Plug.shared: {t: %s, v: %s}}" % (spec["t"], yq(spec["v"]))
     t, v = spec["t"], spec["v"]
     if via == "plugin":
         if t == "null":
@@ -246,6 +282,8 @@ def render(case, only_just_once=False):
     if case["version"] == 3:
         lines.append("- snowfakery_version: 3")
     lines.append("- plugin: " + PLUGIN)
+    if case.get("var"):
+        lines += ["- var: shared_v", "  value: {C05Plug.mk: {t: %s, v: %s}}" % (case["var"]["t"], yq(case["var"]["v"]))]
     ex = case.get("extras") or {}
     if not only_just_once:
         lines += ["- object: T0", "  count: 2", "  fields:", "    k: 5"]
@@ -503,6 +541,10 @@ def run_case(rep, case, pending):
                 rep.count("field-name:underscore")
             elif not is_ident(f):
                 rep.count("field-name:non-identifier")
+    for row in case["rows"]:
+        for _fn, sp in row["fields"]:
+            if sp.get("via") in ("shared", "today", "var", "datefn"):
+                rep.count("aliased-field:" + sp["via"])
     nt = set(as_dict(g1["nickTable"]).values())
     for t, _n in g1["lastUsed"]:
         if t not in nt:
@@ -729,6 +771,22 @@ FIXED.append(
      "hist": "R", "jr": "qq", "n": 2, "zero": True, "extras": {k: True for k in EXTRA_KEYS}})
 FIXED.append(dict(FIXED[-1], version=2))
 
+def _alias_fields(prefix, specs):
+    out = []
+    for i, sp in enumerate(specs):
+        out += [["%s%da" % (prefix, i), dict(sp)], ["%s%db" % (prefix, i), dict(sp)]]
+    return out
+
+
+_ALIAS_SPECS = [dict(v, via="shared") for v in SHARED_VALUES] + [{"via": "today"}, {"via": "var"},
+                                                                 {"via": "datefn", "v": "2024-02-29"}]
+# every aliasing source, twice in a nicknamed row, twice in an un-nicknamed row, both dialects
+FIXED.append(
+    {"version": 3, "rows": [{"table": "Q", "nick": "qq", "fields": _alias_fields("a", _ALIAS_SPECS)},
+                            {"table": "R", "nick": None, "fields": _alias_fields("b", _ALIAS_SPECS)}],
+     "hist": None, "jr": "qq", "n": 3, "zero": True, "extras": {}, "var": {"t": "decimal", "v": "1.10"}})
+FIXED.append(dict(FIXED[-1], version=2, var={"t": "datetime", "v": "2024-01-01T10:00:00+05:00"}))
+
 # a continuation file written before cf894eb (no `!snowfakery_decimal` tag anywhere), with the legacy
 # `nicknamed_objects` key and dependencies in the old list form: it must still load
 LEGACY_FILE = """id_manager:
@@ -793,6 +851,8 @@ def run(ctx, rep, findings):
     rep.rule = ("type-directed generator: 1-3 just_once templates (tables Q/R/S, safe / YAML-hostile / no nickname, repeated "
                 "tables), 1-6 fields each over str (84 YAML-hostile strings + random), int (to 10**30), float, bool, null, "
                 "date, datetime (naive / offsets / microseconds), Decimal, backward row references, forward references; "
+                "ALIASING: the same Python object (date / datetime / Decimal / big int / str / float via a memoising plugin "
+                "function, `today` twice, a `var`, the lru_cached `date:` function) in 2-3 fields of a row and in several rows; "
                 "field NAMES incl. hidden `__x`, `_x`, id-adjacent, unicode, spaces, dots; extra tables that are nested-only "
                 "(KidC, hidden __KidH), friends-only (FrC, FrQ under a just_once row), hidden top-level (__Hid); "
                 "injected through recipe literals, v3 formulas and a plugin; both dialects; chain length 1-4; observer "
